@@ -603,6 +603,16 @@ def enc_xml(e, ind):
 def level_xml(lvl, ind):
     pad = "  " * ind
     s = ""
+    if lvl.get("_order") == "bad":
+        # rule-breaking member order (C08 edit): everything that follows the fields is emitted first
+        l2 = dict(lvl)
+        l2["_order"] = None
+        l2["fields"] = []
+        l3 = dict(lvl)
+        l3["_order"] = None
+        l3["groups"] = []
+        l3["data"] = []
+        return level_xml(l2, ind) + level_xml(l3, ind)
     for f in lvl["fields"]:
         s += pad + "<field" + _a("name", f["name"]) + _a("id", f["id"]) + _a("type", f["type"]) + _a("offset", f["offset"])
         if f["presence"] != "required":
